@@ -29,7 +29,7 @@ import threading
 from collections import Counter
 
 from harness import tlc, xl
-from harness.checks.c10 import mismatch, show, text_of, py_variants
+from harness.checks.c10 import brief, mismatch, show, text_of, py_variants
 from harness.evidence import Verdict
 
 PID = 'C02'
@@ -232,7 +232,7 @@ class Binder:
             v.violation(
                 f'[{route}/{kind}] {f} {env or ""}: reference value {show(want)}; {why}',
                 dict(route=route, spelling=kind, formula=f, env=e, toks=vec['toks'],
-                     want=want, got=repr(got)[:200]))
+                     want=want, got=brief(got, 200)))
 
     @staticmethod
     def uses_refs(vec):
@@ -285,11 +285,17 @@ class Binder:
 
 # ---------------------------------------------------------------------------
 
+STATIC_CFG = {('prec', 5): 'Formula_mc.cfg', ('lit', 3): 'Formula_lit.cfg',
+              ('sim', 9, 6): 'Formula_sim.cfg'}
+
+
 def run_exhaustive(v, name, maxlen, invariants, workers=8, timeout=1500):
-    d = tlc.new_scratch('formula')
-    cfg = os.path.join(d, f'{name}.cfg')
-    with open(cfg, 'w') as f:
-        f.write(cfg_text(name, maxlen, 1, invariants))
+    if (name, maxlen) in STATIC_CFG:        # the quick tier runs the committed cfg files
+        cfg = os.path.join(tlc.SPEC, STATIC_CFG[(name, maxlen)])
+    else:
+        cfg = os.path.join(tlc.new_scratch('formula'), f'{name}.cfg')
+        with open(cfg, 'w') as f:
+            f.write(cfg_text(name, maxlen, 1, invariants))
     res = tlc.run('MC_Formula', cfg, spec_dir=tlc.SPEC, workers=workers,
                   timeout=timeout, heap='6g')
     if not res.ok:
@@ -313,11 +319,14 @@ def run_exhaustive(v, name, maxlen, invariants, workers=8, timeout=1500):
 
 
 def run_simulation(v, maxlen, minexport, num, seed, timeout=600):
-    d = tlc.new_scratch('formula')
-    cfg = os.path.join(d, 'sim.cfg')
-    with open(cfg, 'w') as f:
-        f.write(cfg_text('sim', maxlen, minexport,
-                         ['TypeOK', 'PrintParse', 'RedundantParens', 'ValueTotal', 'Export']))
+    if ('sim', maxlen, minexport) in STATIC_CFG:
+        cfg = os.path.join(tlc.SPEC, STATIC_CFG[('sim', maxlen, minexport)])
+    else:
+        cfg = os.path.join(tlc.new_scratch('formula'), 'sim.cfg')
+        with open(cfg, 'w') as f:
+            f.write(cfg_text('sim', maxlen, minexport,
+                             ['TypeOK', 'PrintParse', 'RedundantParens', 'ValueTotal',
+                              'Export']))
     res = tlc.run('MC_Formula', cfg, spec_dir=tlc.SPEC, workers=4,
                   simulate=dict(num=num), depth=maxlen + 2, seed=seed,
                   timeout=timeout, heap='4g')
@@ -521,7 +530,7 @@ def replay(path):
         except Exception as exc:     # noqa
             got = exc
     why = mismatch(got, case['want'])
-    print(f"replay {rec['desc']}\n  now: {got!r}")
+    print(f"replay {rec['desc']}\n  now: {brief(got, 200)}")
     if why:
         print(f'VIOLATION property={PID} replay={path}\n  {why}')
         return 1
